@@ -247,7 +247,7 @@ pub fn run(out: &mut impl Write, seed: u64, cases: usize, replay: &str) {
                 let exe = std::env::current_exe().unwrap();
                 let tmp = pending.with_extension("one");
                 std::fs::write(&tmp, format!("rb {} {} {}\n", target, arg, h)).unwrap();
-                let o = std::process::Command::new(&exe).args(["rawbytes-one", tmp.to_str().unwrap()]).output().expect("child");
+                let Ok(o) = std::process::Command::new(&exe).args(["rawbytes-one", tmp.to_str().unwrap()]).output() else { continue; };
                 if o.status.success() { out.write_all(&o.stdout).unwrap(); }
                 else { writeln!(out, "rb {} {} {} => ABORT {}", target, arg, h, format!("{}", o.status).replace(' ', "_")).unwrap(); }
                 let _ = std::fs::remove_file(&tmp);
@@ -263,7 +263,8 @@ pub fn run(out: &mut impl Write, seed: u64, cases: usize, replay: &str) {
         let _ = std::fs::remove_file(&pending);
         let o = std::process::Command::new(&exe)
             .args(["rawbytes-child", &seed.to_string(), &from.to_string(), &to.to_string(), pending.to_str().unwrap()])
-            .output().expect("child");
+            .output();
+        let Ok(o) = o else { std::thread::sleep(std::time::Duration::from_millis(300)); continue; };
         out.write_all(&o.stdout).unwrap();
         if o.status.success() {
             from = to;
